@@ -175,7 +175,8 @@ def history(rng, tier, refs=False, reads=False, flavour="c10"):
                 o["idx"] = 2 + rng.below(2)
             ops.append(o)
         elif k == "diff":
-            ops.append({"op": "diff", "r": r, "r2": rng.pick(live), "opts": [opt("PathSep", ".")]})
+            # (any separator: both sides have to be flattened with the one that was asked for)
+            ops.append({"op": "diff", "r": r, "r2": rng.pick(live), "opts": [opt("PathSep", rng.pick([".", ".", "/", "::"]))]})
     tags = sorted(set(o["op"] + ("-emb" if has_reg(o.get("from")) else "") for o in ops))
     return {"k": "forest", "regs": NREGS, "ops": ops, **({"reattach": True} if flavour == "c05" else {}), "_tag": "forest/" + flavour, "_nt": any("emb" in t or t in ("remove", "setchild", "child") for t in tags),
             "_sig": "%s|%s|%d" % (flavour, "+".join(tags), len(ops))}
@@ -392,9 +393,10 @@ def analyze(case, impl):
                     out.append(("C15", "step %d: FlattenedKeys of r%d = %s, the non-nil primitive settings are %s" % (si, j, sorted(R["keys"])[:8], want[:8]), si))
         if kind == "diff" and "diff" in st and regs[r] is not None and regs[op["r2"]] is not None and pure(regs[r]["fp"]) and pure(regs[op["r2"]]["fp"]) \
                 and not ((all_ids(regs[r]["fp"]) | all_ids(regs[op["r2"]]["fp"])) & dup):
+            sep = next((o.get("v") for o in op.get("opts", []) if o.get("o") == "PathSep"), ".")
             def rooted(R):
                 pre = R["path"] + "." if R["fp"].get("p") and R["path"] else ""
-                return set(pre + k for k in leaf_keys(R["fp"]))
+                return set((pre + k).replace(".", sep) for k in leaf_keys(R["fp"]))
             old, new = rooted(regs[r]), rooted(regs[op["r2"]])
             d = st["diff"]
             if set(d["keep"]) != old & new or set(d["add"]) != new - old or set(d["remove"]) != old - new or len(d["keep"]) + len(d["add"]) + len(d["remove"]) != len(old | new):
